@@ -193,6 +193,19 @@ func genTxnSchema(rng *rand.Rand, withRefs bool) TxnSchema {
 			{Name: "n", Type: ColType{Kind: "atom", Key: "integer", Min: 1, Max: 1}},
 			{Name: "next", Type: uu, RefTable: chainTable, RefType: "strong"}}})
 	}
+	if withRefs && rng.Intn(2) == 0 && len(spec.Tables) > 1 {
+		// one row referring weakly to the same row through a set and through an optional column (to a root
+		// table where there is one: its rows stay although nothing refers to them strongly)
+		target := spec.Tables[1+rng.Intn(len(spec.Tables)-1)].Name
+		for _, t := range spec.Tables[1:] {
+			if t.IsRoot {
+				target = t.Name
+			}
+		}
+		spec.Tables[0].Cols = append(spec.Tables[0].Cols,
+			ColSpec{Name: "wset", Type: ColType{Kind: "set", Key: "uuid", Min: 0, Max: -1}, RefTable: target, RefType: "weak"},
+			ColSpec{Name: "wopt", Type: ColType{Kind: "opt", Key: "uuid", Min: 0, Max: 1}, RefTable: target, RefType: "weak"})
+	}
 	// every non-root table needs a strong referrer column somewhere, else its rows can never live
 	for i := range spec.Tables {
 		t := &spec.Tables[i]
@@ -545,6 +558,9 @@ func (g *txnGen) genRefAtom(target string) Atom {
 	}
 }
 
+// bigNeighbours: integers beyond 2^53 next to each other (float64 rounds them to one value)
+var bigNeighbours = []int64{1 << 53, 1<<53 + 1, -(1 << 53), -(1<<53 + 1)}
+
 func (g *txnGen) genColValue(c ColSpec) *Value {
 	rng := g.rng
 	atomFor := func(t, ref string) Atom {
@@ -555,6 +571,9 @@ func (g *txnGen) genColValue(c ColSpec) *Value {
 		case "string":
 			return AS([]string{"", "a", "b", "c", "d"}[rng.Intn(5)])
 		case "integer":
+			if rng.Intn(6) == 0 {
+				return AI(bigNeighbours[rng.Intn(len(bigNeighbours))])
+			}
 			return AI(int64(rng.Intn(4)))
 		}
 		return genAtom(rng, t)
@@ -602,6 +621,9 @@ func (g *txnGen) genWhere(t TableSpec) []WCondJ {
 		// a row named by its uuid AND a guard on its contents (which holds or not), in either order
 		u := ex[rng.Intn(len(ex))]
 		guard := WCondJ{Col: "n", Fn: []string{"<", "<=", ">", ">=", "!=", "=="}[rng.Intn(6)], Val: VA(AI(int64(rng.Intn(4))))}
+		if rng.Intn(4) == 0 {
+			guard.Val = VA(AI(bigNeighbours[rng.Intn(len(bigNeighbours))]))
+		}
 		if rng.Intn(2) == 0 {
 			guard = WCondJ{Col: "name", Fn: []string{"==", "!="}[rng.Intn(2)], Val: VA(AS([]string{"", "a", "b", "c", "d"}[rng.Intn(5)]))}
 		}
@@ -622,7 +644,12 @@ func (g *txnGen) genWhere(t TableSpec) []WCondJ {
 	case k < 7:
 		return []WCondJ{{Col: "name", Fn: "==", Val: VA(AS([]string{"", "a", "b", "c", "d"}[rng.Intn(5)]))}}
 	case k < 8:
-		return []WCondJ{{Col: "n", Fn: []string{"<", "<=", ">", ">=", "!=", "=="}[rng.Intn(6)], Val: VA(AI(int64(rng.Intn(4))))}}
+		v := int64(rng.Intn(4))
+		if rng.Intn(2) == 0 {
+			// an ordering among integers that a float64 cannot tell apart
+			v = bigNeighbours[rng.Intn(len(bigNeighbours))]
+		}
+		return []WCondJ{{Col: "n", Fn: []string{"<", "<=", ">", ">=", "!=", "=="}[rng.Intn(6)], Val: VA(AI(v))}}
 	case k < 9:
 		return nil // all rows
 	default:
@@ -716,6 +743,13 @@ func genDoubleMutateTxn(rng *rand.Rand, ts TxnSchema, sh *shadow) (TxnJ, bool) {
 	return TxnJ{Ops: ops}, len(ops) > 0
 }
 
+// genWeakBothTxn: see genWeakBoth
+func genWeakBothTxn(rng *rand.Rand, ts TxnSchema, sh *shadow) (TxnJ, bool) {
+	g := &txnGen{rng: rng, ts: ts, sh: sh, named: map[string]string{}, inserted: map[string][]string{}}
+	ops := g.genWeakBoth()
+	return TxnJ{Ops: ops}, len(ops) > 0
+}
+
 // genChainTxn: a transaction about chains (see genChainBuild / genChainDrop), with up to two other operations
 func genChainTxn(rng *rand.Rand, ts TxnSchema, sh *shadow) TxnJ {
 	g := &txnGen{rng: rng, ts: ts, sh: sh, named: map[string]string{}, inserted: map[string][]string{}}
@@ -750,11 +784,33 @@ func genTxn(rng *rand.Rand, ts TxnSchema, sh *shadow, nops int) TxnJ {
 		}
 		sh.pending = nil
 	}
-	k := rng.Intn(32)
+	k := rng.Intn(36)
+	if rng.Intn(12) == 0 {
+		k = 35
+	}
 	if g.hasChains() && rng.Intn(5) == 0 {
 		k = 21 // schemas with chains: build and drop them often enough for both to happen in one history
 	}
+	if g.ts.Spec.Tables[0].Col("wset") != nil && rng.Intn(5) == 0 {
+		k = 34
+	}
 	switch k {
+	case 32:
+		// nothing but mutations: the whole transaction (no insert or update next to it)
+		if ops := g.genMutateCollide(); ops != nil {
+			t.Ops = ops
+			return t
+		}
+	case 33:
+		t.Ops = append(t.Ops, g.genUnknownColumn()...)
+		return t
+	case 34:
+		if ops := g.genWeakBoth(); ops != nil {
+			t.Ops = ops
+			return t
+		}
+	case 35:
+		t.Ops = append(t.Ops, g.genBigOrder()...)
 	case 30, 31:
 		// a row inserted, deleted and inserted again under the same uuid, then looked at
 		t.Ops = append(t.Ops, g.genReinsert()...)
@@ -915,6 +971,153 @@ func (g *txnGen) genReinsert() []OperationJ {
 	return ops
 }
 
+// genBigOrder: two integers beyond 2^53 that differ by one (a float64 holds one value for both) are put into
+// rows, and the rows are selected, counted and changed by ordering conditions between the two
+func (g *txnGen) genBigOrder() []OperationJ {
+	rng := g.rng
+	t := g.ts.Spec.Tables[rng.Intn(len(g.ts.Spec.Tables))]
+	lo := []int64{1 << 53, -(1<<53 + 1), 1<<62 + 512, 1<<63 - 2}[rng.Intn(4)]
+	hi := lo + 1
+	var ops []OperationJ
+	ex := g.sh.uuids(t.Name)
+	rng.Shuffle(len(ex), func(i, j int) { ex[i], ex[j] = ex[j], ex[i] })
+	vals := []int64{lo, hi}
+	for i := 0; i < 2; i++ {
+		if i < len(ex) && rng.Intn(2) == 0 {
+			ops = append(ops, OperationJ{Op: "update", Table: t.Name, Where: byUUID(ex[i]), Row: Row{"n": VA(AI(vals[i]))}})
+		} else {
+			row := Row{"n": VA(AI(vals[i])), "name": VA(AS(fmt.Sprintf("big%d", rng.Intn(1000))))}
+			op := OperationJ{Op: "insert", Table: t.Name, UUID: g.sh.fresh(), Row: row}
+			g.inserted[t.Name] = append(g.inserted[t.Name], op.UUID)
+			ops = append(ops, op)
+		}
+	}
+	fns := []string{"<", "<=", ">", ">="}
+	for i := 1 + rng.Intn(3); i > 0; i-- {
+		w := []WCondJ{{Col: "n", Fn: fns[rng.Intn(4)], Val: VA(AI(vals[rng.Intn(2)]))}}
+		switch rng.Intn(3) {
+		case 0:
+			ops = append(ops, OperationJ{Op: "select", Table: t.Name, Where: w})
+		case 1:
+			ops = append(ops, OperationJ{Op: "mutate", Table: t.Name, Where: w, Mutations: []MutationJ{{Col: "n", Mutator: "-=", Val: VA(AI(0))}}},
+				OperationJ{Op: "select", Table: t.Name, Where: w})
+		default:
+			for _, c := range t.Cols {
+				if c.Name == "tag" || c.Name == "b" || c.Name == "r" {
+					ops = append(ops, OperationJ{Op: "update", Table: t.Name, Where: w, Row: Row{c.Name: nativeToOvsValue(g.genColValue(c))}})
+					break
+				}
+			}
+			ops = append(ops, OperationJ{Op: "select", Table: t.Name, Where: w})
+		}
+	}
+	return ops
+}
+
+// genUnknownColumn: an operation that names a column its table does not have (in its row, its mutations, its
+// conditions or its column list), after an operation that can be carried out: the transaction fails as a whole
+func (g *txnGen) genUnknownColumn() []OperationJ {
+	rng := g.rng
+	t := g.ts.Spec.Tables[rng.Intn(len(g.ts.Spec.Tables))]
+	first := g.genOp()
+	var bad OperationJ
+	switch rng.Intn(5) {
+	case 0:
+		bad = OperationJ{Op: "update", Table: t.Name, Where: g.genWhere(t), Row: Row{"n": VA(AI(1)), "no_such_column": VA(AI(1))}}
+	case 1:
+		bad = OperationJ{Op: "insert", Table: t.Name, UUID: g.sh.fresh(), Row: Row{"name": VA(AS("x")), "no_such_column": VA(AS("y"))}}
+	case 2:
+		bad = OperationJ{Op: "mutate", Table: t.Name, Where: g.genWhere(t), Mutations: []MutationJ{{Col: "no_such_column", Mutator: "+=", Val: VA(AI(1))}}}
+	case 3:
+		bad = OperationJ{Op: "update", Table: t.Name, Where: []WCondJ{{Col: "no_such_column", Fn: "==", Val: VA(AI(1))}}, Row: Row{"n": VA(AI(1))}}
+	default:
+		bad = OperationJ{Op: "select", Table: t.Name, Where: []WCondJ{{Col: "no_such_column", Fn: "!=", Val: VA(AS("z"))}}}
+	}
+	return []OperationJ{first, bad}
+}
+
+// genMutateCollide: a transaction made of mutations only (and perhaps a delete of another row): an integer
+// column of a unique index is moved onto the value another row holds
+func (g *txnGen) genMutateCollide() []OperationJ {
+	for _, t := range g.ts.Spec.Tables {
+		onN := false
+		for _, ix := range t.Indexes {
+			for _, c := range ix {
+				onN = onN || c == "n"
+			}
+		}
+		uuids := g.sh.uuids(t.Name)
+		if !onN || len(uuids) < 2 {
+			continue
+		}
+		g.rng.Shuffle(len(uuids), func(i, j int) { uuids[i], uuids[j] = uuids[j], uuids[i] })
+		a, b := g.sh.rows[t.Name][uuids[0]], g.sh.rows[t.Name][uuids[1]]
+		if a["n"] == nil || b["n"] == nil {
+			continue
+		}
+		if abs64(a["n"].A.I) > 1<<41 || abs64(b["n"].A.I) > 1<<41 || a["n"].A.I == b["n"].A.I {
+			continue // (small values: the difference itself does not overflow)
+		}
+		d := b["n"].A.I - a["n"].A.I
+		ops := []OperationJ{{Op: "mutate", Table: t.Name, Where: byUUID(uuids[0]), Mutations: []MutationJ{{Col: "n", Mutator: "+=", Val: VA(AI(d))}}}}
+		if len(uuids) > 2 && g.rng.Intn(3) == 0 {
+			ops = append(ops, OperationJ{Op: "delete", Table: t.Name, Where: byUUID(uuids[2])})
+		}
+		return ops
+	}
+	return nil
+}
+
+func abs64(x int64) int64 {
+	if x < 0 {
+		return -x
+	}
+	return x
+}
+
+// genWeakBoth: a row that refers weakly to one row through a set column and through an optional column
+// (wset, wopt) loses that row: both columns are pruned in one pass of the reference bookkeeping
+func (g *txnGen) genWeakBoth() []OperationJ {
+	t0 := g.ts.Spec.Tables[0]
+	ws, wo := t0.Col("wset"), t0.Col("wopt")
+	if ws == nil || wo == nil {
+		return nil
+	}
+	targets := g.sh.uuids(ws.RefTable)
+	var holders []string
+	for _, u := range g.sh.uuids(t0.Name) {
+		row := g.sh.rows[t0.Name][u]
+		if row["wopt"] != nil && row["wopt"].O != nil && row["wset"] != nil && setHas(row["wset"].S, *row["wopt"].O) {
+			holders = append(holders, u)
+		}
+	}
+	if len(holders) > 0 && g.rng.Intn(2) == 0 {
+		// drop the target both columns point to
+		h := g.sh.rows[t0.Name][holders[g.rng.Intn(len(holders))]]
+		return []OperationJ{{Op: "delete", Table: ws.RefTable, Where: byUUID(h["wopt"].O.S)}}
+	}
+	if len(targets) == 0 || len(g.sh.uuids(t0.Name)) == 0 {
+		// nothing to refer to, or nobody to refer: a target and a referrer are inserted together
+		tg := g.sh.fresh()
+		trow := Row{"name": VA(AS(fmt.Sprintf("wt%d", g.rng.Intn(1000)))), "n": VA(AI(int64(100 + g.rng.Intn(900))))}
+		hrow := Row{"name": VA(AS(fmt.Sprintf("wh%d", g.rng.Intn(1000)))), "n": VA(AI(int64(100 + g.rng.Intn(900)))), "wset": VS(AU(tg)), "wopt": VS(AU(tg))}
+		h := g.sh.fresh()
+		g.inserted[ws.RefTable] = append(g.inserted[ws.RefTable], tg)
+		g.inserted[t0.Name] = append(g.inserted[t0.Name], h)
+		return []OperationJ{{Op: "insert", Table: ws.RefTable, UUID: tg, Row: trow}, {Op: "insert", Table: t0.Name, UUID: h, Row: hrow}}
+	}
+	// build: an existing row of the first table gets both references (and one more in the set)
+	tg := targets[g.rng.Intn(len(targets))]
+	set := []Atom{AU(tg)}
+	if other := targets[g.rng.Intn(len(targets))]; other != tg {
+		set = append(set, AU(other)) // (never the same element twice: that would not be a set)
+	}
+	if ex := g.sh.uuids(t0.Name); len(ex) > 0 {
+		return []OperationJ{{Op: "update", Table: t0.Name, Where: byUUID(ex[g.rng.Intn(len(ex))]), Row: Row{"wset": VS(set...), "wopt": VS(AU(tg))}}}
+	}
+	return nil
+}
+
 // reordered: the same set or map with its elements in another order
 func (g *txnGen) reordered(v *Value) *Value {
 	v = cloneValue(v)
@@ -948,6 +1151,31 @@ func (g *txnGen) genIndexMove() []OperationJ {
 		g.sh.probes = append(g.sh.probes, OperationJ{Op: "select", Table: t.Name, Where: where})
 	}
 	ops := []OperationJ{{Op: "update", Table: t.Name, Row: ra, Where: byUUID(uuids[0])}, {Op: "update", Table: t.Name, Row: rb, Where: byUUID(uuids[1])}}
+	if g.rng.Intn(2) == 0 {
+		// the transaction itself looks the rows up by the moving values while two rows share one (twice, a
+		// lookup may disturb what it reads), changes them by value, and once more at the end
+		sel := func(vals Row) OperationJ {
+			var where []WCondJ
+			for _, c := range idx {
+				where = append(where, WCondJ{Col: c, Fn: "==", Val: vals[c]})
+			}
+			return OperationJ{Op: "select", Table: t.Name, Where: where}
+		}
+		byVal := sel(ra)
+		touch := OperationJ{Op: "update", Table: t.Name, Where: byVal.Where, Row: Row{}}
+		for _, c := range t.Cols {
+			if c.Name == "tag" || c.Name == "b" || c.Name == "r" {
+				touch.Row[c.Name] = nativeToOvsValue(g.genColValue(c))
+				break
+			}
+		}
+		ops = []OperationJ{ops[0], byVal, byVal}
+		if len(touch.Row) > 0 {
+			ops = append(ops, touch)
+		}
+		ops = append(ops, OperationJ{Op: "update", Table: t.Name, Row: rb, Where: byUUID(uuids[1])}, byVal, sel(rb))
+		return ops
+	}
 	if g.rng.Intn(3) == 0 { // one-way move: the first row takes a fresh value, the second takes the first's old value
 		fresh := Row{}
 		for _, c := range idx {
@@ -1362,6 +1590,28 @@ func (g *txnGen) genDoubleMutate() []OperationJ {
 			}
 			return ops
 		}
+	}
+	if g.rng.Intn(3) == 0 {
+		// one operation: a mutation that changes the column, then one that changes nothing (inserting what is
+		// there by now, deleting what is not), then perhaps another column: the difference of the first
+		// must survive the second
+		v := g.genColValue(x.c)
+		ms := []MutationJ{{Col: x.c.Name, Mutator: "insert", Val: nativeToOvsValue(v)}, {Col: x.c.Name, Mutator: "insert", Val: nativeToOvsValue(v)}}
+		if g.rng.Intn(2) == 0 {
+			absent := VS(AS("never-there"))
+			if x.c.Type.Key == "integer" {
+				absent = VS(AI(987654321))
+			} else if x.c.Type.Key != "string" {
+				absent = nil
+			}
+			if absent != nil {
+				ms[1] = MutationJ{Col: x.c.Name, Mutator: "delete", Val: absent}
+			}
+		}
+		if x.t.Col("n") != nil && g.rng.Intn(2) == 0 {
+			ms = append(ms, MutationJ{Col: "n", Mutator: "+=", Val: VA(AI(1))})
+		}
+		return []OperationJ{{Op: "mutate", Table: x.t.Name, Mutations: ms, Where: byUUID(x.u)}}
 	}
 	for k := 2 + g.rng.Intn(2); k > 0; k-- {
 		v := g.genColValue(x.c)
